@@ -2,6 +2,7 @@ import NfpmModel.Wire
 import NfpmModel.Spec.PlanSpec
 import NfpmModel.Spec.PayloadSpec
 import NfpmModel.Spec.ScriptSpec
+import NfpmModel.Spec.NameSpec
 /-
   Model driver: one request per line on stdin, one answer per line on stdout.
   Core-only so that it links as a `lean_exe`.
@@ -107,6 +108,46 @@ def handle (op : String) (args : List String) : Except String String :=
       let obs ← pList (do let a ← pBytes; let b ← pBytes; pure (a, b))
       pure (f, c, obs)) args
     let v := Spec.checkScripts f c obs
+    pure (if v.isEmpty then "holds" else "violated " ++ String.intercalate ";" v)
+  | "semver" => do
+    let v ← run1 pBytes args
+    pure (match SemVer.parse v with
+      | none => "none"
+      | some x => s!"ok {hex x.major} {hex x.minor} {hex x.patch} {hex x.pre} {hex x.build}")
+  | "vdefaults" => do
+    let i ← run1 pVInfo args
+    let r := withDefaultsVersion i
+    pure s!"{hex r.version} {hex r.prerelease} {hex r.metadata}"
+  | "verstr" => do
+    let (f, i) ← run1 (do let f ← pFmt; let i ← pVInfo; pure (f, i)) args
+    pure (match f with
+      | .deb | .ipk => hex (debVersion true i)
+      | .rpm => s!"{hex (rpmVersion i)} {hex (rpmRelease i)}"
+      | .apk => hex (apkVersion i)
+      | .arch => hex (archPkgver i))
+  | "filename" => do
+    let (f, i) ← run1 (do let f ← pFmt; let i ← pVInfo; pure (f, i)) args
+    pure (hex (match f with
+      | .deb => debFileName i | .ipk => ipkFileName i | .rpm => rpmFileName i
+      | .apk => apkFileName i | .arch => archFileName i))
+  | "dpkgcmp" => do
+    let (a, b) ← run1 (do let a ← pBytes; let b ← pBytes; pure (a, b)) args
+    let r := dpkgCompare a b
+    pure (if r < 0 then "lt" else if r > 0 then "gt" else "eq")
+  | "rpmcmp" => do
+    let (a, b) ← run1 (do let a ← pBytes; let b ← pBytes; pure (a, b)) args
+    let r := rpmvercmp a b
+    pure (if r < 0 then "lt" else if r > 0 then "gt" else "eq")
+  | "c15check" => do
+    let (f, fn, n, v, r, a) ← run1 (do
+      let f ← pFmt
+      let fn ← pBytes
+      let n ← pBytes
+      let v ← pBytes
+      let r ← pBytes
+      let a ← pBytes
+      pure (f, fn, n, v, r, a)) args
+    let v := Spec.checkFileName f fn n v r a
     pure (if v.isEmpty then "holds" else "violated " ++ String.intercalate ";" v)
   | "configpaths" => do
     let plan ← run1 (pList pContentOut) args
